@@ -679,6 +679,7 @@ func TestCheck(t *testing.T) {
 				// offered by several goroutines at once
 				if !ahead && st+3 < len(p.Blocks) {
 					c.staleAndConcurrent(run, hi, st)
+					c.witnessTurnsInvalid(run, hi, st)
 				}
 				// late rejection: with state roots in headers, a block whose successor
 				// header (already recorded, validly signed) names another previous
